@@ -75,7 +75,17 @@ def advance (c : Cfg) (target : Nat) : Nat → D → D
       let d := { d with s := { d.s with now := max d.s.now t } }
       let d := match due with
         | .timer p => fire c d (Ev.timerFire p)
-        | .sweep => { fire c d Ev.idleSweep with sweepAt := some (t + SWEEP) }
+        | .sweep =>
+          if (List.range d.s.nobj).any (fun q => decide (idleDue d.s q)) then
+            { fire c d Ev.idleSweep with sweepAt := some (t + SWEEP) }
+          else
+            -- this sweep closes nothing (the step is the identity); so does every later sweep before
+            -- some registered connection can become idle: skip them in one go
+            let tIdle := (List.range d.s.nobj).foldl (fun m q =>
+              if decide (registered d.s q) then min m ((d.s.obj q).last + IDLE + 1) else m) (target + 1)
+            let lim := min tIdle (target + 1)
+            let k := max 1 ((lim - t + SWEEP - 1) / SWEEP)
+            { d with sweepAt := some (t + k * SWEEP) }
         | .snap p =>
           -- timeout: the task fails, `_handle_response_ready` answers 500 unless closing
           let d := { d with snaps := d.snaps.filter (fun x => x.1 ≠ p) }
